@@ -333,7 +333,7 @@ impl<'a> Gen<'a> {
         if self.rng.chance(1, 2) {
             s += &format!(r#" stroke="{}" stroke-width="{}""#, self.paint(), num(self.rng.f32_in(0.5, 8.0)));
             if self.rng.chance(1, 3) {
-                s += &format!(r#" stroke-linejoin="{}" stroke-linecap="{}""#, self.rng.pick(&["miter", "round", "bevel"]), self.rng.pick(&["butt", "round", "square"]));
+                s += &format!(r#" stroke-linejoin="{}" stroke-linecap="{}""#, self.rng.pick(&["miter", "round", "bevel", "miter-clip"]), self.rng.pick(&["butt", "round", "square"]));
             }
             if self.rng.chance(1, 5) {
                 s += &format!(r#" stroke-dasharray="{} {}""#, self.rng.range(1, 8), self.rng.range(1, 8));
